@@ -427,6 +427,10 @@ fn run_inst<T: Elem, C: ArrayLength + PartialEq>(ctx: &mut Ctx, rep: &mut Report
     if st.depth_capped && st.frontier_left > 0 && std::time::Instant::now() > deadline {
         ctx.capped = true;
         rep.cap(format!("{}: wall-clock cap hit with {} frontier states left", inst, st.frontier_left));
+    } else if st.depth_capped {
+        rep.note(format!("{}: depth bound {} reached with {} unexpanded states ({} states, {} transitions)", inst, depth, st.frontier_left, st.states, st.transitions));
+    } else {
+        rep.note(format!("{}: FIXPOINT reached at depth {} ({} states, {} transitions)", inst, st.max_depth, st.states, st.transitions));
     }
     for (sig, msg, hist) in viol {
         rep.violation(sig, msg, || {
@@ -477,7 +481,7 @@ fn inst_index(name: &str) -> Option<usize> {
 }
 
 pub fn run(ctx: &mut Ctx, rep: &mut Report) {
-    let depth = if ctx.quick() { 4 } else { 5 };
+    let depth = if ctx.quick() { 8 } else { 11 };
     rep.space(
         "histories",
         &format!(
